@@ -435,7 +435,12 @@ def rule_views(run):
     views.run_rule(run, "F-VIEW")
 
 
-RULES = [rule_rows, rule_hops, rule_tokens, rule_exhaustive, rule_casts, rule_flags, rule_siblings, rule_widths, rule_intarith, rule_ext, rule_castmatrix, rule_tracer_tables, rule_resize, rule_views]
+def rule_alias(run):
+    from . import c03
+    c03.rule_alias(run)   # views of a locally constructed signal are redirected to the alias as well (keyed by root)
+
+
+RULES = [rule_rows, rule_hops, rule_tokens, rule_exhaustive, rule_casts, rule_flags, rule_siblings, rule_widths, rule_intarith, rule_ext, rule_castmatrix, rule_tracer_tables, rule_resize, rule_views, rule_alias]
 
 LEVEL = "other"
 EXPLANATION = (
